@@ -8,8 +8,8 @@ from superrec2.utils.subsequences import subseq_complete, mask_from_subseq, subs
 PROP = "C18"
 LEVEL = "exploration"
 RULE = (
-    "every (child != 0, parent) pair of bit masks up to B bits (B = 10 quick, 12 thorough) x both end modes against an "
-    "independent run-counting reference; every sequence 0..n-1 of distinct elements up to length 10 (quick) / 12 (thorough) "
+    "every (child != 0, parent) pair of bit masks up to B bits (B = 11 quick, 13 thorough) x both end modes against an "
+    "independent run-counting reference; every sequence 0..n-1 of distinct elements up to length 11 (quick) / 13 (thorough) "
     "and every subsequence of it: mask_from_subseq o subseq_from_mask = id in both directions, subseq_complete = all-ones "
     "mask; element alphabets: ints and strings. Non-trivial mask pair: child contained in parent with >= 1 lost run; "
     "non-trivial subsequence: proper and non-empty."
@@ -19,14 +19,14 @@ BUDGET = {"quick": 200, "thorough": 1800}
 
 
 def plan(tier, seed):
-    bits = 10 if tier == "quick" else 12
+    bits = 11 if tier == "quick" else 13
     out = []
     for nb in range(1, bits + 1):
         # parents of exactly nb bits (top bit set) and all smaller ones are covered by smaller nb
         k = max(1, (1 << nb) // 64)
         for part in range(k):
             out.append({"slice": f"masks<= {bits} bits", "mode": "dist", "nbits": nb, "part": [part, k]})
-    maxlen = 10 if tier == "quick" else 12
+    maxlen = 11 if tier == "quick" else 13
     for n in range(0, maxlen + 1):
         out.append({"slice": f"subsequences<= {maxlen}", "mode": "subseq", "n": n})
     return out
